@@ -144,10 +144,16 @@ impl Directive {
             }
             Directive::Undef => {
                 if let DirectiveOps::OpList(values) = opts {
-                    if let Some(Operand::E(Expr::Ident(name))) = values.first() {
-                        context.push_to_last((point, Item::Undef(name.clone())))
-                    } else {
+                    // `.undef a, b` ends both aliases
+                    if values.is_empty() {
                         bail!("Not allowed type of arguments for .{}, {}", self, point);
+                    }
+                    for value in values {
+                        if let Operand::E(Expr::Ident(name)) = value {
+                            context.push_to_last((point, Item::Undef(name.clone())))
+                        } else {
+                            bail!("Not allowed type of arguments for .{}, {}", self, point);
+                        }
                     }
                 } else {
                     bail!("Not allowed type of arguments for .{}, {}", self, point);
